@@ -10,7 +10,8 @@
      the session limit (T from -8 .. ~4 NLRI), announced for 1..8 prefixes, mixed with small
      routes on the same and other prefixes: messages land within +-2 NLRI of 4096 / 65535, a
      single route fits exactly, by a few octets, or not at all.
-   Scenario "noroom": the slice of "bound" where known finding KF-C11-v4-noroom lives.
+   Scenario "noroom": the slice of "bound" where a classic IPv4 group has room for less than one
+     worst-case NLRI (-8..8 octets).
    Scenario "fill": 30..60 same-length prefixes whose NLRI fill the room under the limit exactly
      / up to one octet short of one more NLRI; three more prefixes force the split.
    Scenario "as2fill": "fill" towards a peer without the 4-octet AS capability (send() rewrites
@@ -74,16 +75,16 @@ StepSmall ==
   /\ UNCHANGED <<stage, sc>>
 
 (* ---- boundary: the big attribute set (id 9) leaves `room` octets for NLRI under the limit ----
-   Scenario "noroom" is the part of the boundary where known finding KF-C11-v4-noroom lives
-   (classic IPv4 group with less room than one worst-case NLRI); "bound" leaves it out so that
-   the two are validated separately. *)
+   Scenario "noroom" concentrates on the slice where a classic IPv4 group has less room than one
+   worst-case NLRI (repaired in repo commit 9eb707a; judged by the strict invariants like every
+   other scenario).  The size asked for is the table-side attribute block: for the m4 path form
+   the packer adds a 7-octet NEXT_HOP on the wire. *)
 MpOverhead(fam, nh) == IF NhBytesOf(fam, nh) = 0 THEN 0 ELSE 9 + NhBytesOf(fam, nh)
 NoRoom  == Scenario = "noroom"
 BFam    == IF NoRoom THEN "v4" ELSE sc.fam
-BNh     == IF NoRoom THEN (IF sc.nh \in {"n4a", "n4b"} THEN sc.nh ELSE "n4a") ELSE sc.nh
-BRoom   == IF NoRoom THEN sc.room4
-           ELSE IF NhBytesOf(sc.fam, sc.nh) = 0 /\ sc.room < 9 THEN sc.room + 17 ELSE sc.room
-BigAb   == LimitOf(sc.ext) - 23 - MpOverhead(BFam, BNh) - BRoom
+BNh     == IF NoRoom THEN (IF sc.nh \in {"n4a", "n4b", "m4a", "m4b"} THEN sc.nh ELSE "n4a") ELSE sc.nh
+BRoom   == IF NoRoom THEN sc.room4 ELSE sc.room
+BigAb   == LimitOf(sc.ext) - 23 - MpOverhead(BFam, BNh) - NhSynth(BFam, BNh) - BRoom
 BigCount == Len(SelectSeq(hist, LAMBDA c : c.kind = "ann" /\ c.attrs = 9))
 
 StepBound ==
@@ -101,7 +102,7 @@ StepBound ==
 FillP(i)  == IF sc.fam = "v6" THEN 3 * i ELSE 4 * i + 1            \* /64, resp. /32
 FillPlen  == IF sc.fam = "v6" THEN 64 ELSE 32
 FillNl    == NlriLen(sc.fam, FillPlen, sc.ap[sc.fam])
-FillAb    == LimitOf(sc.ext) - 23 - MpOverhead(sc.fam, sc.nh)
+FillAb    == LimitOf(sc.ext) - 23 - MpOverhead(sc.fam, sc.nh) - NhSynth(sc.fam, sc.nh)
                - (sc.cnt * FillNl + (IF sc.rem = -1 THEN FillNl - 1 ELSE sc.rem))
 StepFill ==
   /\ Scenario \in {"fill", "as2fill"} /\ stage = 1
